@@ -39,14 +39,20 @@ const GOOD: [&str; 12] = [
     "h",
     "3 0 do I loop",
 ];
-// run-time failing sources; each prints the marker <9> before it fails
+// run-time failing sources; each prints the marker <9> before it fails and has work left after the
+// failing word that would print <8> (which therefore must never appear)
 const FAILING: [&str; 4] = [
-    "\"<9>\" print 1 0 /",
-    "\"<9>\" print drop drop drop drop drop drop drop drop drop",
-    ": k \"<9>\" print 0 get ; [ ] k",
-    "3 0 do I 1 == if \"<9>\" print 1 0 / then loop",
+    "\"<9>\" print 1 0 / \"<8>\" print",
+    "\"<9>\" print drop drop drop drop drop drop drop drop drop \"<8>\" print",
+    ": k \"<9>\" print 0 get \"<8>\" print ; [ ] k \"<8>\" print",
+    "3 0 do I 1 == if \"<9>\" print 1 0 / \"<8>\" print then loop \"<8>\" print",
 ];
-const PROBES: [&str; 14] = [
+const PROBES: [&str; 18] = [
+    ": other 77 88 ; : lq 6 ; lu",
+    // a later line that is blank / only a comment is still a later line
+    "",
+    "  \n ",
+    "\\ just a comment",
     "4",
     "depth",
     "9 var y y",
@@ -63,21 +69,34 @@ const PROBES: [&str; 14] = [
     "begin 1 break repeat",
 ];
 
+/// every history starts from a booted interpreter that already has two user-defined immediate
+/// words: `imm` (harmless) and `boom` (fails when it is executed, i.e. while the source using it is read)
+// ... and a late-bound word `lq` (not defined yet) with a caller `lu`
+const PRELUDE: &str = ": imm immediate 1 drop ; : boom immediate 1 0 / ; late lq : lu lq ;";
+fn c10_base() -> Xstate {
+    let mut xs = boot();
+    let _ = xs.set_insn_limit(Some(100_000));
+    if !matches!(guarded(|| xs.eval(PRELUDE)), Ok(Ok(()))) {
+        machinery_error("C10: the prelude defining the immediate words does not evaluate");
+    }
+    xs
+}
+
 fn rejected_candidates(quick: bool) -> Vec<String> {
     let prefixes: Vec<&str> = if quick {
-        vec!["", "1 2", "true if", "begin", "[ 1", ": f 1", "#( 1", "#( true if", ": f #(", "3 0 do", "5 var w", "case 1 of", "^{", "late q"]
+        vec!["", "1 2", "true if", "begin", "[ 1", ": f 1", "#( 1", "#( true if", ": f #(", "3 0 do", "5 var w", "case 1 of", "^{", "late q", "7 imm", ": lq 5 ; #( lu #)"]
     } else {
         vec![
             "", "1", "1 2", "true if", "true if 1 else", "begin", "begin true while", "[ 1", "{ 1", ": f 1", ": f local x", "#(", "#( 1", "#( true if", "#( #( 2", ": f #(", "3 0 do", "[ 1 ] foreach",
-            "5 var w", "case 1 of", "case 1 of 2 endof", "enum E", "enum E : A", "^{", "late q", "1 let z", "#( 4 const c #)", ": f 1 ; : g f",
+            "5 var w", "case 1 of", "case 1 of 2 endof", "enum E", "enum E : A", "^{", "late q", "1 let z", "#( 4 const c #)", ": f 1 ; : g f", "7 imm", ": lq 5 ; #( lu #)", ": lq 5 ; lu",
         ]
     };
     let failing: Vec<&str> = if quick {
-        vec!["foo", "12x", "\"abc", "then", "]", ";", "#)", "loop", "", "local x", "5 const k", "#( drop #)", "#( 1 0 / #)", "until"]
+        vec!["foo", "12x", "\"abc", "then", "]", ";", "#)", "loop", "", "local x", "5 const k", "#( drop #)", "#( 1 0 / #)", "until", "boom"]
     } else {
         vec![
             "foo", "12x", "0x", "\"abc", "\"a\\q\"", "|f g|", "\\( c", "then", "else", "]", "}", ";", "#)", "~)", "loop", "endcase", "endof", "repeat", "until", "while", "break", "", "local x", "5 const k",
-            "#( drop #)", "#( 1 0 / #)", "#( foo #)", "! nosuch", "endenum", "var", ":", "^}", "let", "1 let &",
+            "#( drop #)", "#( 1 0 / #)", "#( foo #)", "! nosuch", "endenum", "var", ":", "^}", "let", "1 let &", "boom",
         ]
     };
     // failures inside text injected by `~)`: the unread tail of the outer source must go too
@@ -129,6 +148,7 @@ struct Obs {
 }
 fn observe(xs: &mut Xstate, src: &str, st: Style) -> Result<Obs, String> {
     let _ = xs.read_stdout();
+    watch::note(AsRef::<str>::as_ref(&src));
     let r = guarded(|| submit(xs, src, st))?;
     Ok(Obs { kind: res_kind(&r), stack: stack_of(xs), out: xs.read_stdout().unwrap_or_default() })
 }
@@ -147,11 +167,7 @@ pub fn run(cfg: &Cfg) -> i32 {
     let quick = cfg.quick();
     let depth = if quick { 2 } else { 3 };
     let sources: Vec<&str> = GOOD.iter().chain(FAILING.iter()).cloned().collect();
-    let base = {
-        let mut xs = boot();
-        let _ = xs.set_insn_limit(Some(100_000));
-        xs
-    };
+    let base = c10_base();
     // ---------- reachable states (BFS over good / run-time failing sources, one style per history)
     let mut states: Vec<Vec<(usize, Style)>> = vec![];
     let mut seen: HashMap<u128, usize> = HashMap::new();
@@ -206,11 +222,7 @@ pub fn run(cfg: &Cfg) -> i32 {
     let n_not_rejected_here = AtomicU64::new(0);
     let kinds = Counters::new();
     par_run(cfg.threads, states.len(), 1, |_t, pull| {
-        let base = {
-            let mut xs = boot();
-            let _ = xs.set_insn_limit(Some(100_000));
-            xs
-        };
+        let base = c10_base();
         let mut local: BTreeMap<String, u64> = BTreeMap::new();
         while let Some(r) = pull() {
             for si in r {
@@ -341,11 +353,7 @@ pub fn run(cfg: &Cfg) -> i32 {
         let cnt = AtomicU64::new(0);
         let steps = AtomicU64::new(0);
         par_run(cfg.threads, all.len(), 4, |_t, pull| {
-            let base = {
-                let mut xs = boot();
-                let _ = xs.set_insn_limit(Some(100_000));
-                xs
-            };
+            let base = c10_base();
             while let Some(r) = pull() {
                 for hi in r {
                     let h = &all[hi];
@@ -376,13 +384,13 @@ pub fn run(cfg: &Cfg) -> i32 {
                                 continue;
                             }
                             let markers = out.matches("<9>").count();
-                            if markers != expected_markers {
+                            if markers != expected_markers || out.contains("<8>") {
                                 rep.report_w(&format!("reexecution-after-runtime-error:{:?}", st), (h.len() * 100 + q.len()) as u64, || {
                                     jo(vec![
                                         ("kind", js("runtime-failure-history")),
                                         ("style", js(format!("{:?}", st))),
                                         ("history", txt()),
-                                        ("difference", js(format!("the failing sources' marker was printed {} times, expected {}; output {:?}; results {:?}", markers, expected_markers, out, kinds))),
+                                        ("difference", js(format!("the failing sources' marker <9> was printed {} times, expected {} (and <8>, which follows the failing word, never); output {:?}; results {:?}", markers, expected_markers, out, kinds))),
                                     ])
                                 });
                             }
@@ -413,11 +421,7 @@ pub fn run(cfg: &Cfg) -> i32 {
         let rej: Vec<&String> = rejected.iter().step_by(if quick { 5 } else { 1 }).collect();
         let cnt = AtomicU64::new(0);
         par_run(cfg.threads, rej.len(), 4, |_t, pull| {
-            let base = {
-                let mut xs = boot();
-                let _ = xs.set_insn_limit(Some(100_000));
-                xs
-            };
+            let base = c10_base();
             while let Some(rg) = pull() {
                 for ri in rg {
                     let r = rej[ri];
@@ -539,14 +543,19 @@ pub fn run(cfg: &Cfg) -> i32 {
             }
         });
         for f in FAILING.iter() {
-            for q in ["depth", "4"] {
-                let lines = vec![f.to_string(), "1".to_string(), q.to_string()];
+            for (q, blank) in [("depth", None), ("4", None), ("4", Some("")), ("depth", Some("   "))] {
+                let mut lines = vec![f.to_string()];
+                if let Some(b) = blank {
+                    lines.push(b.to_string());
+                }
+                lines.push("1".to_string());
+                lines.push(q.to_string());
                 // count the failing line's marker in the whole transcript: needs the full stdout, so put the marker probe last and count <9> via a second run without MARK cut
                 let all = run_repl_full(&lines);
                 cnt.fetch_add(1, Ordering::Relaxed);
                 match all {
                     Ok(t) => {
-                        if t.matches("<9>").count() != 1 {
+                        if t.matches("<9>").count() != 1 || t.contains("<8>") {
                             rep.report_w("repl:reexecution-after-runtime-error", lines.len() as u64, || jo(vec![("kind", js("repl-lines")), ("lines", J::A(lines.iter().map(|l| js(l.clone())).collect())), ("transcript", js(truncate(&t, 400)))]));
                         }
                     }
